@@ -164,7 +164,7 @@ def fitBinary (σ lg : F → F) (e1 e2 : F) (l : List (TRow F)) : Fit F :=
     if r.obs then haw r * (r.y - qA r) + (q1 r - q0 r) - rd else (q1 r - q0 r) - rd
   let icRR := fun r : TRow F =>
     if r.obs then one / m1 * (h1 r * (r.y - qA r) + q1 r - m1) - (one / m0) * (-one * h0 r * (r.y - qA r) + q0 r - m0)
-    else (q1 r - m1) + q0 r - m0
+    else (one / m1) * (q1 r - m1) - (one / m0) * (q0 r - m0)
   let icOR := fun r : TRow F =>
     if r.obs then (one / (m1 * (one - m1)) * (h1 r * (r.y - qA r) + q1 r)) -
                   (one / (m0 * (one - m0)) * (-one * h0 r * (r.y - qA r) + q0 r))
